@@ -209,11 +209,10 @@ def judge_pars(ctx, f, src, s0, s1, tpos, label, case, cls, layout):
     try:
         for k in range(1, len(cands) + 1):
             a0, a1 = cands[k - 1]
-            kept = src[:a0] + '(_x_)' + src[a1:]
-            dropped = src[:a0] + '_x_' + src[a1:]
-            if a0 > 0 and src[a0 - 1].isalnum():
-                dropped = src[:a0] + ' _x_' + src[a1:]
-                kept = src[:a0] + ' (_x_)' + src[a1:]
+            pre = ' ' if a0 > 0 and (src[a0 - 1].isalnum() or src[a0 - 1] == '_') else ''      # 'if(b)else': the parentheses also separate tokens,
+            post = ' ' if a1 < len(src) and (src[a1].isalnum() or src[a1] == '_') else ''       # dropping them must not join identifiers/keywords
+            kept = src[:a0] + pre + '(_x_)' + post + src[a1:]
+            dropped = src[:a0] + pre + '_x_' + post + src[a1:]
             if ast.dump(ast.parse(kept)) == ast.dump(ast.parse(dropped)):
                 owned = k
             else:
